@@ -50,6 +50,7 @@ type Spec struct {
 	Type  reflect.Type // Go type of the values
 	Parse func(s string) (interface{}, error)
 	Show  func(v interface{}) string
+	Err   string // set when the lookup API of package encode refused: the canonical answer
 }
 
 // defined integer types: reflect.StructOf/ArrayOf cannot create them, and a
@@ -252,8 +253,89 @@ func intSpec(name string, e encode.Encoder, zero interface{}) *Spec {
 	}
 }
 
+// kindSamples: a value of every kind the lookup API can be asked about (nil = reflect.Invalid).
+var kindSamples = map[string]interface{}{
+	"invalid": nil, "bool": true, "int": int(1), "i8": int8(1), "i16": int16(1), "i32": int32(1), "i64": int64(1),
+	"uint": uint(1), "u8": uint8(1), "u16": uint16(1), "u32": uint32(1), "u64": uint64(1),
+	"f32": float32(1), "f64": float64(1), "string": "a", "struct": struct{ A int32 }{1}, "ptr": new(int32),
+}
+
+// KindNames in a fixed order (generators draw from it).
+var KindNames = []string{"invalid", "bool", "int", "i8", "i16", "i32", "i64", "uint", "u8", "u16", "u32", "u64",
+	"f32", "f64", "string", "struct", "ptr"}
+
+func sampleOfKind(k string) (interface{}, bool) {
+	if strings.HasPrefix(k, "slice.") {
+		e, ok := sampleOfKind(k[len("slice."):])
+		if !ok {
+			return nil, false
+		}
+		if e == nil { // a slice of interfaces: element kind Interface, which no spec names; use []interface{}
+			return []interface{}{}, true
+		}
+		return reflect.MakeSlice(reflect.SliceOf(reflect.TypeOf(e)), 0, 0).Interface(), true
+	}
+	v, ok := kindSamples[k]
+	return v, ok
+}
+
+// lookupSpec obtains the encoder through the lookup API of package encode:
+// kind:<k> = EncoderByKind(kind of <k>), of:<k> = EncoderOf(a value of kind <k>),
+// sliceof:<k> = GetSliceEltEncoder(a value of kind <k>).  Values travel as for the plain integer specs;
+// the Go type of the values is the type of kind <k> (the element type for sliceof).
+func lookupSpec(how, k string) (*Spec, error) {
+	if strings.HasPrefix(k, "slice.invalid") || k == "slice." {
+		return nil, fmt.Errorf("bad kind %q", k)
+	}
+	sample, ok := sampleOfKind(k)
+	if !ok {
+		return nil, fmt.Errorf("bad kind %q", k)
+	}
+	var e encode.Encoder
+	var err error
+	valKind := k
+	switch how {
+	case "kind":
+		e, err = encode.EncoderByKind(reflect.ValueOf(sample).Kind())
+	case "of":
+		e, err = encode.EncoderOf(sample)
+	case "sliceof":
+		e, err = encode.GetSliceEltEncoder(sample)
+		valKind = strings.TrimPrefix(k, "slice.")
+	}
+	sp := &Spec{Name: how + ":" + k}
+	switch {
+	case err == encode.ErrUnknownEltType:
+		sp.Err = "err:unknown-elt-type"
+	case err == encode.ErrNotSlice:
+		sp.Err = "err:not-slice"
+	case err != nil:
+		sp.Err = "err:other"
+	case e == nil:
+		sp.Err = "err:nil-encoder"
+	}
+	if sp.Err != "" {
+		return sp, nil
+	}
+	vs, ok := kindSamples[valKind]
+	if !ok || vs == nil {
+		return nil, fmt.Errorf("no value type for kind %q", valKind)
+	}
+	t := reflect.TypeOf(vs)
+	sp.Enc, sp.Type = e, t
+	sp.Parse = func(s string) (interface{}, error) { return ParseTyped(t, s) }
+	sp.Show = ShowTyped
+	return sp, nil
+}
+
 // ParseSpec builds the real encoder named by the spec.
 func ParseSpec(s string) (*Spec, error) {
+	if i := strings.IndexByte(s, ':'); i > 0 {
+		switch s[:i] {
+		case "kind", "of", "sliceof":
+			return lookupSpec(s[:i], s[i+1:])
+		}
+	}
 	switch s {
 	case "i8":
 		return intSpec(s, encode.I8{}, int8(0)), nil
@@ -368,6 +450,9 @@ func Interp(toks []string) string {
 		if err != nil {
 			return "bad-op"
 		}
+		if sp.Err != "" {
+			return sp.Err
+		}
 		v, err := sp.Parse(toks[2])
 		if err != nil {
 			return "bad-op"
@@ -403,7 +488,7 @@ func Interp(toks []string) string {
 			return "bad-op"
 		}
 		sp, err := ParseSpec(toks[1])
-		if err != nil {
+		if err != nil || sp.Err != "" {
 			return "bad-op"
 		}
 		buf, err := parseX(toks[2])
@@ -748,6 +833,49 @@ func GenC15(c *lp.Ctx) {
 				}
 			}
 			g.intCase(e, x)
+		}
+	}
+
+	// the lookup API (EncoderByKind, EncoderOf, GetSliceEltEncoder): every kind, plain and as slice element.
+	// A successful lookup must hand out THE encoder of that kind (round trip, sizes, layout of C15); the
+	// refusals are compared with the model only.
+	widths := map[string]int{"u16": 2, "u32": 4, "u64": 8}
+	for _, how := range []string{"kind", "of", "sliceof"} {
+		for _, base := range KindNames {
+			for _, k := range []string{base, "slice." + base, "slice.slice." + base} {
+				if strings.HasSuffix(k, "slice.invalid") {
+					continue
+				}
+				elem := k
+				if how == "sliceof" {
+					elem = strings.TrimPrefix(k, "slice.")
+					if elem == k {
+						elem = "" // not a slice
+					}
+				}
+				w, ok := widths[elem]
+				spec := how + ":" + k
+				if !ok {
+					ans := c.Do("enc.rt " + spec + " 0 x")
+					c.Hit("lookup-refused")
+					c.Case(spec, true)
+					if !strings.HasPrefix(ans, "err:") {
+						c.Violate(lp.Violation{What: "C15 lookup: an encoder was handed out for a kind without one",
+							Script: []string{"enc.rt " + spec + " 0 x"}, Expected: "err:*", Got: clip(ans)})
+					}
+					continue
+				}
+				for i := 0; i < c.Pick(6, 60); i++ {
+					bits := r.Uint64()
+					if i < 3 {
+						bits = []uint64{0, math.MaxUint64, 0x0102030405060708}[i]
+					}
+					if w < 8 {
+						bits &= (uint64(1) << (8 * uint(w))) - 1
+					}
+					g.rt("lookup-"+how, spec, strconv.FormatUint(bits, 10), g.tail(), leBytesOf(bits, w), true)
+				}
+			}
 		}
 	}
 
